@@ -455,6 +455,41 @@ func ruleC08CallNil(p *Prog, a *Anchors, r *Report) {
 		}
 		key := "resolve:call-follows-pointers"
 		follows := mustPassFromFlags(res.Blocks[0], b.Succs[notFunc].Instrs[0], func(x ssa.Instruction) bool {
+			// (the loop as a helper of the package: `current, ok = followPointers(current)`)
+			if hc, isCall := x.(*ssa.Call); isCall && hc.Common().StaticCallee() != nil && len(hc.Common().Args) > 0 && c08FollowsPointersHelper(p, hc.Common().StaticCallee()) {
+				if cellOf(hc.Common().Args[0]) != "" && cellOf(hc.Common().Args[0]) == cellOf(kc.Common().Args[0]) {
+					return true
+				}
+				// what the refusal asks the kind of is what the helper handed back
+				seen := map[ssa.Value]bool{}
+				var from func(v ssa.Value) bool
+				from = func(v ssa.Value) bool {
+					if v == nil || seen[v] {
+						return false
+					}
+					seen[v] = true
+					switch y := v.(type) {
+					case *ssa.Extract:
+						return y.Tuple == ssa.Value(hc)
+					case *ssa.Call:
+						return y == hc
+					case *ssa.Phi:
+						for _, e := range y.Edges {
+							if from(e) {
+								return true
+							}
+						}
+					case *ssa.UnOp:
+						if sv := stripLoad(y); sv != ssa.Value(y) {
+							return from(sv)
+						}
+					}
+					return false
+				}
+				if from(kc.Common().Args[0]) {
+					return true
+				}
+			}
 			cmp, isCmp := x.(*ssa.BinOp)
 			if !isCmp || cmp.Op != token.EQL {
 				return false
@@ -574,9 +609,21 @@ func ruleC01DerefBound(p *Prog, a *Anchors, r *Report) {
 							v = add.X
 						}
 						if phi, isPhi := v.(*ssa.Phi); isPhi && phi.Block() == hdr {
+							startsConst := false
+							for _, e := range phi.Edges {
+								if _, isK := constInt(e); isK {
+									startsConst = true
+								}
+							}
 							for _, e := range phi.Edges {
 								if add, isAdd := e.(*ssa.BinOp); isAdd && add.Op == token.ADD && add.X == ssa.Value(phi) {
 									bounded = true
+								}
+								// (counting down from a constant: `for left := max; …; left-- { if left <= 0 {`)
+								if sub, isSub := e.(*ssa.BinOp); isSub && sub.Op == token.SUB && sub.X == ssa.Value(phi) && startsConst {
+									if k, isK := constInt(sub.Y); isK && k > 0 {
+										bounded = true
+									}
 								}
 							}
 						}
@@ -609,4 +656,29 @@ func ruleC01DerefBound(p *Prog, a *Anchors, r *Report) {
 	if n == 0 {
 		r.Unk("none", "-", "no pointer-following loop found")
 	}
+}
+
+// c08FollowsPointersHelper: g (of the package) loops over Elem() of its reflect.Value parameter for as long as the
+// kind is Ptr.
+func c08FollowsPointersHelper(p *Prog, g *ssa.Function) bool {
+	if g == nil || g.Blocks == nil || !p.InPkg(g) {
+		return false
+	}
+	elem, cmpPtr := false, false
+	for _, b := range g.Blocks {
+		if innermostLoopHeader(b) == nil {
+			continue
+		}
+		for _, in := range b.Instrs {
+			if c, ok := in.(*ssa.Call); ok && c.Common().StaticCallee() != nil && p.extName(c.Common().StaticCallee()) == "(reflect.Value).Elem" {
+				elem = true
+			}
+			if cmp, ok := in.(*ssa.BinOp); ok && cmp.Op == token.EQL {
+				if kk, isK := kindConst(cmp.Y); isK && kk == int(reflect.Ptr) {
+					cmpPtr = true
+				}
+			}
+		}
+	}
+	return elem && cmpPtr
 }
